@@ -558,3 +558,60 @@ func (m *Machine) seedGlobals(i *interpreter) {
 		}
 	}
 }
+
+// RunUnitTest executes one `func TestXxx(*testing.T)` of the repository's
+// own suite inside the engine (every path, if the test branches on a
+// symbolic value such as the clock) and returns the (sub)test outcomes.
+func (m *Machine) RunUnitTest(fn *ssa.Function, cfg Config) (outcomes []TestOutcome, log []string, problems []string) {
+	solver := NewSolver(cfg.Solver, 10000)
+	defer solver.Close()
+	ex := newExplorer(solver, Budgets{MaxSteps: 50_000_000, MaxDepth: 400, MaxDecisions: 100000})
+	queue := []WorkItem{{}}
+	seen := map[string]bool{}
+	funcs := map[*ssa.Function]bool{}
+	for len(queue) > 0 && len(problems) == 0 {
+		item := queue[len(queue)-1]
+		queue = queue[:len(queue)-1]
+		ex.reset(item)
+		i := m.newInterpreter(ex, funcs)
+		m.seedGlobals(i)
+		func() {
+			defer func() {
+				if r := recover(); r != nil {
+					switch r := r.(type) {
+					case pathAbort:
+						if r.why != "infeasible" && r.why != "done" {
+							problems = append(problems, r.why+": "+r.detail)
+						}
+					default:
+						problems = append(problems, fmt.Sprintf("%v\n%s", r, debug.Stack()))
+					}
+				}
+			}()
+			defer i.sched.shutdown()
+			for _, path := range m.RootPkgs {
+				if p := m.byPath[path]; p != nil {
+					if init := p.Func("init"); init != nil {
+						call(i, nil, token.NoPos, init, nil)
+					}
+				}
+			}
+			t, st := i.newT(fn.Name(), nil)
+			i.runTestFunc(nil, fn, t, st)
+			i.sched.drain()
+		}()
+		for _, o := range i.testOutcomes {
+			key := o.Name
+			if !o.Passed {
+				key += "#fail"
+			}
+			if !seen[key] {
+				seen[key] = true
+				outcomes = append(outcomes, o)
+			}
+		}
+		log = append(log, i.testLog...)
+		queue = append(queue, ex.forks...)
+	}
+	return
+}
